@@ -239,21 +239,23 @@ def d2_reachability(ctx: Ctx):
 
 def d4_callee_names(ctx: Ctx):
     """Under @fpy a name in call position that the checker has never heard of is taken for a name of the enclosing
-    Python scope and let through.  A name the function binds itself is not one of those: it is a variable, and the call
-    reads it.  (a) `_visit_call` is evaluated, from its source, on a callee name that is bound on every path / on some
-    paths / not at all, with unknown names tolerated or not: the definedness check is skipped only for a name that is
-    not in the environment.  (b) the names captured from the defining scope never include one of the function's own
-    locals (`inspect.getclosurevars` lists attribute names too: the `round` of `fp.round`)."""
+    Python scope and let through.  A name the function binds itself -- before the call, on some paths only, or *after* it
+    -- is not one of those: it is a variable, and the call reads it.  (a) `_visit_call` is evaluated, from its source,
+    on a callee name in each of those states, with unknown names tolerated or not: the definedness check is skipped
+    only for a name the function never binds.  (b) `bound_names`, evaluated on a stand-in function, lists arguments and
+    the targets of assignments, loops and with-as (tuple patterns included) and no comprehension target.  (c) the
+    captured names handed to the checker have exactly those removed (`inspect.getclosurevars` lists attribute names,
+    the `round` of `fp.round`; `co_varnames` would also list comprehension variables)."""
     from ..cfg import CFG, find_path
     from ..minipy import Interp, Obj
     fn = ctx.fn(SYNTAX, 'SyntaxCheckInstance._visit_call')
     meths = {n: f for n, (_, _, f) in ctx.repo.methods(SYNTAX, 'SyntaxCheckInstance', inherited=False).items()}
     rows = 0
     for tolerant in (True, False):
-        for state in ('bound', 'partial', 'absent'):
+        for state in ('bound', 'partial', 'bound only later', 'absent'):
             seen = []
-            env = {'g': state == 'bound'} if state != 'absent' else {}
-            me = Obj('SyntaxCheckInstance', ignore_unknown=tolerant)
+            env = {'g': state == 'bound'} if state in ('bound', 'partial') else {}
+            me = Obj('SyntaxCheckInstance', ignore_unknown=tolerant, bound={'g'} if state != 'absent' else set())
             it = Interp({}, meths, self_obj=me, is_a=lambda k, c: k == c,
                         overrides={'self._mark_use': lambda name, e, ignore_missing=False: seen.append(ignore_missing), 'self._visit_expr': lambda *a: None,
                                    'self._visit_attribute': lambda *a: None})
@@ -261,18 +263,77 @@ def d4_callee_names(ctx: Ctx):
             rows += 1
             want_skip = tolerant and state == 'absent'
             ctx.check(seen == [want_skip], SYNTAX, fn, 'SyntaxCheckInstance._visit_call',
-                      f'callee name {state} in the environment, unknown names {"tolerated" if tolerant else "refused"}: the definedness check is {"skipped" if want_skip else "made"}',
-                      f'_mark_use called with ignore_missing={seen}: `if c > 0: g = x` followed by `return g(x)` is accepted and every call fails looking up `g`')
-    if rows < 6:
+                      f'callee name {state}, unknown names {"tolerated" if tolerant else "refused"}: the definedness check is {"skipped" if want_skip else "made"}',
+                      f'_mark_use called with ignore_missing={seen}: `if c > 0: g = x` (or `y = g(x); g = 1.0`) with `g` a captured function is accepted and every call fails looking up `g`')
+    if rows < 8:
         raise ShapeError('callee table shrank')
+    # (b)
+    bfuncs = {s.name: s for s in ctx.repo.module(SYNTAX).tree.body if isinstance(s, ast.FunctionDef)}
+    bn = bfuncs.get('bound_names')
+    bcls = ctx.repo.cls(SYNTAX, '_BoundNames') if ctx.repo.has_cls(SYNTAX, '_BoundNames') else None
+    if bn is None or bcls is None:
+        ctx.bad(SYNTAX, None, 'bound_names', 'the names a function binds in its own scope', 'helper not found')
+    else:
+        bm = {s.name: s for s in bcls.body if isinstance(s, ast.FunctionDef)}
+        nm = lambda x: Obj('NamedId', base=x)  # noqa: E731
+        a, t1, t2, lv, w, cv, u = nm('a'), nm('t1'), nm('t2'), nm('lv'), nm('w'), nm('cv'), Obj('UnderscoreId')
+        comp = Obj('ListComp', targets=[cv], iterables=[Obj('Var', name=a)], elt=Obj('Var', name=cv))
+        prog = Obj('FuncDef', args=[Obj('Argument', name=a), Obj('Argument', name=u)], body=Obj('StmtBlock', stmts=[
+            Obj('Assign', target=Obj('TupleBinding', elts=[t1, Obj('TupleBinding', elts=[u, t2])]), expr=comp),
+            Obj('ForStmt', target=lv, iterable=Obj('Var', name=a), body=Obj('StmtBlock', stmts=[])),
+            Obj('ContextStmt', target=w, ctx=Obj('Var', name=a), body=Obj('StmtBlock', stmts=[Obj('ContextStmt', target=u, ctx=Obj('Var', name=a), body=Obj('StmtBlock', stmts=[]))])),
+        ]))
+        collected: list = []
+
+        def make():
+            o = Obj('_BoundNames', names=set())
+            collected.append(o)
+            return o
+
+        def dispatch(it, o, node, c):
+            k = {'Assign': '_visit_assign', 'ForStmt': '_visit_for', 'ContextStmt': '_visit_context'}.get(node.kind)
+            if k and k in bm:
+                saved, it.self_obj = it.self_obj, o
+                try:
+                    return it.call_function(bm[k], [node, c], bound_self=True)
+                finally:
+                    it.self_obj = saved
+            if node.kind in ('ForStmt', 'ContextStmt'):
+                return walk(it, o, node.fields['body'], c)
+            return None
+
+        def walk(it, o, block, c):
+            for st in block.fields['stmts']:
+                dispatch(it, o, st, c)
+        it = Interp(bfuncs, bm, is_a=lambda k, c: k == c)
+        it.overrides.update({'_BoundNames': make, 'super()._visit_assign': lambda st, c: None, 'super()._visit_for': lambda st, c: walk(it, it.self_obj, st.fields['body'], c),
+                             'super()._visit_context': lambda st, c: walk(it, it.self_obj, st.fields['body'], c)})
+
+        def run_bound():
+            o = make()
+            saved, it.self_obj = it.self_obj, o
+            try:
+                for arg in prog.fields['args']:
+                    it.call_function(bm['_bind'], [arg.fields['name']], bound_self=True)
+                walk(it, o, prog.fields['body'], None)
+            finally:
+                it.self_obj = saved
+            return o.fields['names']
+        got = {x.fields['base'] for x in run_bound()}
+        ctx.check(got == {'a', 't1', 't2', 'lv', 'w'}, SYNTAX, bcls, '_BoundNames', 'arguments and the targets of assignments (nested patterns), loops and with-as are bound; comprehension targets and `_` are not',
+                  f'collects {sorted(got)}: a captured helper re-used as a comprehension variable would stop being captured, or a local would stay captured')
+        body = [norm(x) for x in bn.body if not (isinstance(x, ast.Expr) and isinstance(x.value, ast.Constant))]
+        ctx.check(any('_bind(arg.name)' in x for x in body) and any('_visit_block(func.body' in x for x in body), SYNTAX, bn, 'bound_names', 'bound_names visits the arguments and the whole body', f'got {body}')
+        init = meths.get('__init__')
+        ctx.check(init is not None and any(norm(x) == 'self.bound = bound_names(func)' for x in init.body), SYNTAX, init, 'SyntaxCheckInstance.__init__', 'the checker takes its bound names from the function it checks', 'changed')
+    # (c)
     q = '_apply_fpy_decorator'
     dfn = ctx.fn(DECORATOR, q)
     cfg = CFG(dfn)
-    minus = [n for n in cfg.nodes_of('stmt') if isinstance(n.ast, ast.Assign) and 'co_varnames' in norm(n.ast) and isinstance(n.ast.value, ast.BinOp) and isinstance(n.ast.value.op, ast.Sub)
-             and norm(n.ast.targets[0]) == norm(n.ast.value.left)]
-    uses = [n for n in cfg.nodes_of('stmt') if isinstance(n.ast, ast.Assign) and norm(n.ast.targets[0]) == 'free_vars' and minus and norm(minus[0].ast.targets[0]) in norm(n.ast.value)]
-    ok = bool(minus) and bool(uses) and all(find_path(cfg, cfg.entry, u, avoid=lambda n: n in minus) is None for u in uses)
-    ctx.check(ok, DECORATOR, dfn, q, 'the captured names handed to the checker exclude the function\'s own locals (code.co_varnames)',
+    minus = [n for n in cfg.nodes_of('stmt') if isinstance(n.ast, ast.AugAssign) and isinstance(n.ast.op, ast.Sub) and norm(n.ast.target) == 'free_vars' and norm(n.ast.value) == 'bound_names(ast)']
+    checks = [n for n in cfg.nodes_of('stmt') if any(call_name(k) == 'SyntaxCheck.check' for k in calls_in(n.ast))]
+    ok = bool(minus) and bool(checks) and all(find_path(cfg, cfg.entry, u, avoid=lambda n: n in minus) is None for u in checks)
+    ctx.check(ok, DECORATOR, dfn, q, 'the captured names handed to the checker have the names the function binds itself removed (read off the FPy syntax tree)',
               'an attribute name such as the `round` of `fp.round(x)` counts as captured and is bound on entry: `if c > 0: round = x` then `fp.round(x) + round` is accepted '
               'and raises UnboundLocalError when the branch is not taken')
 
@@ -345,7 +406,12 @@ from ..selftest import Mutant  # noqa: E402
 MUTANTS = [
     Mutant('locally-bound-callee-unchecked', SYNTAX, "                self._mark_use(e.func.name, ctx.env, ignore_missing=self.ignore_unknown and not local)", "                self._mark_use(e.func.name, ctx.env, ignore_missing=self.ignore_unknown)", 'C15.D4',
            'finding F83 before its repair'),
-    Mutant('attribute-names-captured', DECORATOR, "    cfree_vars = cfree_vars - set(func.__code__.co_varnames)\n", "", 'C15.D4', 'finding F84 before its repair'),
+    Mutant('attribute-names-captured', DECORATOR, "    free_vars -= bound_names(ast)\n", "", 'C15.D4', 'finding F84 before its repair'),
+    Mutant('callee-bound-later-passes-as-unknown', SYNTAX, "                local = e.func.name in ctx.env or e.func.name in self.bound", "                local = e.func.name in ctx.env", 'C15.D4',
+           'finding F105 before its repair: y = helper(x); helper = 1.0'),
+    Mutant('comprehension-variables-count-as-bound', SYNTAX, "    def _visit_context(self, stmt: ContextStmt, ctx: None):\n        self._bind(stmt.target)\n        super()._visit_context(stmt, ctx)\n",
+           "    def _visit_context(self, stmt: ContextStmt, ctx: None):\n        self._bind(stmt.target)\n        super()._visit_context(stmt, ctx)\n\n    def _visit_list_comp(self, e: ListComp, ctx: None):\n        for t in e.targets:\n            self._bind(t)\n        super()._visit_list_comp(e, ctx)\n", 'C15.D4',
+           'the model does not descend into expressions: not decided here', expect='silent'),
     Mutant('with-around-a-return-falls-through', 'fpy2/analysis/reaching_defs.py', "        case ContextStmt(body=body):\n            return _always_returns(body)\n", "", 'C15.D3',
            'seeded change C15d: the program is accepted and every call raises KeyError'),
     Mutant('nested-if-of-returns-falls-through', 'fpy2/analysis/reaching_defs.py', "        case IfStmt(ift=ift, iff=iff):\n            return _always_returns(ift) and _always_returns(iff)\n", "", 'C15.D3'),
